@@ -1,0 +1,42 @@
+//go:build verif
+
+// Contracts for the deductive verifier in /verif (govc). Comment-only file: with the
+// "verif" build tag off it is invisible to the compiler.
+package k8s
+
+//@ import oidcv1 "github.com/istio-ecosystem/authservice/config/gen/go/v1/oidc"
+//@ import configv1 "github.com/istio-ecosystem/authservice/config/gen/go/v1"
+
+//@ func secretNamespacedName
+//@   ensures  name: result.Namespace == currentNamespace && result.Name == secretRef.GetName()
+
+// Reconcile (C19): an event for a Secret the configuration does not reference, a Secret that cannot
+// be fetched, is being deleted or lacks the key leaves every configuration untouched; otherwise
+// every configuration referencing it — and no other — gets the Secret's current value.
+//@ func (*SecretController).Reconcile
+//@   requires wf: s != nil && s.log != nil && s.k8sClient != nil && SecretsWF(s)
+//@   modifies heap oidcv1.OIDCConfig.ClientSecretConfig, ghost K8sGot, ghost Fetched, above(watermark())
+//@   ensures  err_only_from_get: result1 != nil ==> !IsNotFound(result1)
+//@   ensures  applied: result1 == nil && mapHas(s.secrets, req.NamespacedName.Namespace ++ "/" ++ req.NamespacedName.Name) && Fetched && SecretUsable(K8sGot) ==> forall i int :: 0 <= i && i < len(old(s.secrets[req.NamespacedName.Namespace ++ "/" ++ req.NamespacedName.Name])) ==> old(s.secrets[req.NamespacedName.Namespace ++ "/" ++ req.NamespacedName.Name])[i].GetClientSecret() == K8sGot.data
+//@   ensures  others_untouched: forall o *oidcv1.OIDCConfig :: o <= old(watermark()) && (forall i int :: 0 <= i && i < len(old(s.secrets[req.NamespacedName.Namespace ++ "/" ++ req.NamespacedName.Name])) ==> old(s.secrets[req.NamespacedName.Namespace ++ "/" ++ req.NamespacedName.Name])[i] != o) ==> o.ClientSecretConfig == old(o.ClientSecretConfig)
+//@   ensures  ignored: !(mapHas(s.secrets, req.NamespacedName.Namespace ++ "/" ++ req.NamespacedName.Name) && Fetched && SecretUsable(K8sGot)) ==> forall o *oidcv1.OIDCConfig :: o <= old(watermark()) ==> o.ClientSecretConfig == old(o.ClientSecretConfig)
+//@   loop 1 invariant done: forall k int :: 0 <= k && k <= rangeindex ==> oidcConfigs[k].GetClientSecret() == K8sGot.data
+//@   loop 1 invariant frame: forall o *oidcv1.OIDCConfig :: o <= old(watermark()) && (forall i int :: 0 <= i && i <= rangeindex ==> oidcConfigs[i] != o) ==> o.ClientSecretConfig == old(o.ClientSecretConfig)
+//@   loop 1 invariant wf: s != nil && s.log != nil && SecretsWF(s) && Fetched
+
+// loadSecrets (C19): builds the index secret name -> referencing configurations; a reference into
+// another namespace is refused.
+//@ func (*SecretController).loadSecrets
+//@   requires wf: s != nil && s.config != nil && WFConfig(s.config)
+//@   modifies s.secrets
+//@   ensures  index_wf: result == nil ==> s.secrets != nil && SecretsWF(s)
+//@   ensures  same_namespace: result == nil ==> forall i int, j int :: 0 <= i && i < len(s.config.Chains) && 0 <= j && j < len(s.config.Chains[i].Filters) && SecretRefCfg(s.config.Chains[i].Filters[j]) != nil ==> SecretRefCfg(s.config.Chains[i].Filters[j]).GetClientSecretRef().Namespace == "" || SecretRefCfg(s.config.Chains[i].Filters[j]).GetClientSecretRef().Namespace == s.namespace
+//@   ensures  indexed: result == nil ==> forall i int, j int :: 0 <= i && i < len(s.config.Chains) && 0 <= j && j < len(s.config.Chains[i].Filters) && SecretRefCfg(s.config.Chains[i].Filters[j]) != nil ==> exists k int :: 0 <= k && k < len(s.secrets[s.namespace ++ "/" ++ SecretRefCfg(s.config.Chains[i].Filters[j]).GetClientSecretRef().GetName()]) && s.secrets[s.namespace ++ "/" ++ SecretRefCfg(s.config.Chains[i].Filters[j]).GetClientSecretRef().GetName()][k] == SecretRefCfg(s.config.Chains[i].Filters[j])
+//@   loop 1 invariant wf: s != nil && s.config != nil && WFConfig(s.config) && s.config.Chains == $rangeslice1 && s.secrets != nil && fresh(s.secrets) && SecretsWF(s)
+//@   loop 2 invariant wf: s != nil && s.config != nil && WFConfig(s.config) && s.config.Chains == $rangeslice1 && s.config.Chains[rangeindex1 + 1].Filters == $rangeslice2 && s.secrets != nil && fresh(s.secrets) && SecretsWF(s)
+//@   loop 1 invariant ns1: forall i int, j int :: 0 <= i && i <= rangeindex1 && 0 <= j && j < len(s.config.Chains[i].Filters) && SecretRefCfg(s.config.Chains[i].Filters[j]) != nil ==> SecretRefCfg(s.config.Chains[i].Filters[j]).GetClientSecretRef().Namespace == "" || SecretRefCfg(s.config.Chains[i].Filters[j]).GetClientSecretRef().Namespace == s.namespace
+//@   loop 2 invariant ns1: forall i int, j int :: 0 <= i && i <= rangeindex1 && 0 <= j && j < len(s.config.Chains[i].Filters) && SecretRefCfg(s.config.Chains[i].Filters[j]) != nil ==> SecretRefCfg(s.config.Chains[i].Filters[j]).GetClientSecretRef().Namespace == "" || SecretRefCfg(s.config.Chains[i].Filters[j]).GetClientSecretRef().Namespace == s.namespace
+//@   loop 2 invariant ns2: forall j int :: 0 <= j && j <= rangeindex2 && SecretRefCfg(s.config.Chains[rangeindex1 + 1].Filters[j]) != nil ==> SecretRefCfg(s.config.Chains[rangeindex1 + 1].Filters[j]).GetClientSecretRef().Namespace == "" || SecretRefCfg(s.config.Chains[rangeindex1 + 1].Filters[j]).GetClientSecretRef().Namespace == s.namespace
+//@   loop 1 invariant idx1: forall i int, j int :: 0 <= i && i <= rangeindex1 && 0 <= j && j < len(s.config.Chains[i].Filters) ==> (SecretRefCfg(s.config.Chains[i].Filters[j]) != nil ==> exists k int :: 0 <= k && k < len(s.secrets[s.namespace ++ "/" ++ SecretRefCfg(s.config.Chains[i].Filters[j]).GetClientSecretRef().GetName()]) && s.secrets[s.namespace ++ "/" ++ SecretRefCfg(s.config.Chains[i].Filters[j]).GetClientSecretRef().GetName()][k] == SecretRefCfg(s.config.Chains[i].Filters[j]))
+//@   loop 2 invariant idx1: forall i int, j int :: 0 <= i && i <= rangeindex1 && 0 <= j && j < len(s.config.Chains[i].Filters) ==> (SecretRefCfg(s.config.Chains[i].Filters[j]) != nil ==> exists k int :: 0 <= k && k < len(s.secrets[s.namespace ++ "/" ++ SecretRefCfg(s.config.Chains[i].Filters[j]).GetClientSecretRef().GetName()]) && s.secrets[s.namespace ++ "/" ++ SecretRefCfg(s.config.Chains[i].Filters[j]).GetClientSecretRef().GetName()][k] == SecretRefCfg(s.config.Chains[i].Filters[j]))
+//@   loop 2 invariant idx2: forall j int :: 0 <= j && j <= rangeindex2 ==> (SecretRefCfg(s.config.Chains[rangeindex1 + 1].Filters[j]) != nil ==> exists k int :: 0 <= k && k < len(s.secrets[s.namespace ++ "/" ++ SecretRefCfg(s.config.Chains[rangeindex1 + 1].Filters[j]).GetClientSecretRef().GetName()]) && s.secrets[s.namespace ++ "/" ++ SecretRefCfg(s.config.Chains[rangeindex1 + 1].Filters[j]).GetClientSecretRef().GetName()][k] == SecretRefCfg(s.config.Chains[rangeindex1 + 1].Filters[j]))
